@@ -411,43 +411,70 @@ Section Sim.
   Qed.
 End Sim.
 
-(* ---------- without the guard the refinement is false: witnesses ---------- *)
+(* ---------- the injectivity guard is discharged by the length-prefixed row key ---------- *)
+Theorem pk_refines_spec_typed : forall sch ks, pk_binary sch -> s_uniq sch = [] ->
+  forall rows st, Pre sch (key_kinds sch ks) rows -> stmt_in_U (key_kinds sch ks) st ->
+    pk_exec sch rows st = spec_exec sch rows st /\ Pre sch (key_kinds sch ks) (snd (spec_exec sch rows st)).
+Proof.
+  intros sch ks Hb Hn. apply (pk_refines_spec sch (key_kinds sch ks)); [|exact Hb|exact Hn].
+  intros a b Ha Hb'. apply (row_key_injective sch ks); assumption.
+Qed.
+
+Theorem history_refines_spec_typed : forall sch ks, pk_binary sch -> s_uniq sch = [] ->
+  forall h rows, keyless sch = false -> Pre sch (key_kinds sch ks) rows -> Forall (stmt_in_U (key_kinds sch ks)) h ->
+    run_history sch rows h = spec_history sch rows h.
+Proof.
+  intros sch ks Hb Hn. apply (history_refines_spec sch (key_kinds sch ks)); [|exact Hb|exact Hn].
+  intros a b Ha Hb'. apply (row_key_injective sch ks); assumption.
+Qed.
+
+(* typing of assignments: assignments to non-key columns keep the kinds of the key columns *)
+Lemma col_set_nth_other : forall r i j v, i <> j -> col (set_nth i v r) j = col r j.
+Proof.
+  unfold col. induction r as [|x r IH]; intros i j v H; cbn; [destruct i; reflexivity|].
+  destruct i as [|i]; destruct j as [|j]; cbn; try reflexivity; [congruence|]. apply IH. congruence.
+Qed.
+
+Lemma assign_nonkey_key : forall sch r a, ~ In (fst a) (s_pk sch) -> key sch (apply_assign r a) = key sch r.
+Proof.
+  intros sch r [c e] Hc. cbn in Hc. unfold key, proj. apply map_ext_in. intros j Hj.
+  assert (c <> j) by (intros ->; exact (Hc Hj)).
+  unfold apply_assign. destruct e as [v|k]; [apply col_set_nth_other; assumption|].
+  destruct (col r c); try reflexivity. apply col_set_nth_other; assumption.
+Qed.
+
+Lemma assigns_nonkey_kinds : forall sch ks a, (forall x, In x a -> ~ In (fst x) (s_pk sch)) ->
+  forall r, key_kinds sch ks r -> key_kinds sch ks (apply_assigns a r).
+Proof.
+  intros sch ks a. unfold apply_assigns, key_kinds. induction a as [|x a IH]; intros Ha r Hr; cbn; [exact Hr|].
+  apply IH; [intros y Hy; apply Ha; right; exact Hy|]. rewrite assign_nonkey_key; [exact Hr|apply Ha; left; reflexivity].
+Qed.
+
+(* ---------- the former collision witnesses (row keys "112" / "112") now refine the reference ---------- *)
 Definition c13_sch : schema := {| s_pk := [0%nat; 1%nat]; s_uniq := []; s_coll := [CBin; CBin; CBin] |}.
 Definition c13_rows : list row := [[VInt 1; VInt 12; VInt 0]; [VInt 11; VInt 2; VInt 0]].
 Definition c13_upd : stmt := SUpdate [(2%nat, AAdd 1)] PTrue None None.              (* UPDATE t SET c = c + 1 *)
 Definition c13_move : stmt := SUpdate [(0%nat, AAdd 100); (1%nat, AAdd 100)] PTrue None None.
 
-Lemma lost_update_witness :
-  keyless c13_sch = false /\ keys_nodup c13_sch c13_rows /\
-  impl_exec c13_sch c13_rows c13_upd = (OOk 2 2, [[VInt 1; VInt 12; VInt 0]; [VInt 11; VInt 2; VInt 1]]) /\
-  spec_exec c13_sch c13_rows c13_upd = (OOk 2 2, [[VInt 1; VInt 12; VInt 1]; [VInt 11; VInt 2; VInt 1]]).
-Proof.
-  split; [reflexivity|]. split.
-  - unfold keys_nodup. vm_compute. constructor; [intros [H|[]]; discriminate|constructor; [intros []|constructor]].
-  - split; vm_compute; reflexivity.
-Qed.
-
-Lemma row_created_witness :
-  impl_exec c13_sch c13_rows c13_move =
-    (OOk 2 2, [[VInt 1; VInt 12; VInt 0]; [VInt 101; VInt 112; VInt 0]; [VInt 111; VInt 102; VInt 0]]) /\
+Lemma former_witnesses_refine :
+  impl_exec c13_sch c13_rows c13_upd = (OOk 2 2, [[VInt 1; VInt 12; VInt 1]; [VInt 11; VInt 2; VInt 1]]) /\
+  spec_exec c13_sch c13_rows c13_upd = (OOk 2 2, [[VInt 1; VInt 12; VInt 1]; [VInt 11; VInt 2; VInt 1]]) /\
+  impl_exec c13_sch c13_rows c13_move = (OOk 2 2, [[VInt 101; VInt 112; VInt 0]; [VInt 111; VInt 102; VInt 0]]) /\
   spec_exec c13_sch c13_rows c13_move = (OOk 2 2, [[VInt 101; VInt 112; VInt 0]; [VInt 111; VInt 102; VInt 0]]).
-Proof. split; vm_compute; reflexivity. Qed.
-
-(* non-vacuity: a universe of rows on which the key strings are injective, closed under the statement's assignment *)
-Definition c13_U (r : row) : Prop :=
-  In r [[VInt 1; VInt 2; VInt 0]; [VInt 3; VInt 4; VInt 0]; [VInt 1; VInt 2; VInt 7]; [VInt 3; VInt 4; VInt 7]].
-
-Lemma c13_U_inj : forall a b, c13_U a -> c13_U b -> key_str c13_sch a = key_str c13_sch b -> key c13_sch a = key c13_sch b.
-Proof.
-  intros a b Ha Hb. unfold c13_U in *. cbn in Ha, Hb.
-  destruct Ha as [<-|[<-|[<-|[<-|[]]]]]; destruct Hb as [<-|[<-|[<-|[<-|[]]]]]; vm_compute; intros H; try reflexivity; discriminate.
-Qed.
-
-Lemma c13_U_closed : forall r, c13_U r -> c13_U (apply_assigns [(2%nat, AConst (VInt 7))] r).
-Proof.
-  intros r Hr. unfold c13_U in *. cbn in Hr.
-  destruct Hr as [<-|[<-|[<-|[<-|[]]]]]; vm_compute; tauto.
-Qed.
+Proof. repeat split; vm_compute; reflexivity. Qed.
 
 Lemma c13_bin : pk_binary c13_sch.
 Proof. intros c Hc. cbn in Hc. destruct Hc as [<-|[<-|[]]]; reflexivity. Qed.
+
+Lemma c13_pre : Pre c13_sch (key_kinds c13_sch [KInt; KInt]) c13_rows.
+Proof.
+  split.
+  - unfold keys_nodup. vm_compute. constructor; [intros [H|[]]; discriminate|constructor; [intros []|constructor]].
+  - repeat constructor.
+Qed.
+
+Lemma c13_upd_typed : stmt_in_U (key_kinds c13_sch [KInt; KInt]) c13_upd.
+Proof.
+  unfold c13_upd, stmt_in_U. apply (assigns_nonkey_kinds c13_sch [KInt; KInt] [(2%nat, AAdd 1)]).
+  intros x [<-|[]]. cbn. intros [H|[H|[]]]; discriminate.
+Qed.
